@@ -103,10 +103,14 @@ Section Crash.
      block_number_to_block, block_number_to_raw_block; then the versioned tables with [next]
      (their table order is reflected in gen/TableOrder.v; inside the merged table it is the
      order of the cache list); clear_caches writes nothing. *)
-  Definition commit_script (s : store) : res (list pwrite) :=
-    do v <- vscript (next_height s) (t_cache (st_t s));
+  Definition commit_script_ord (s : store) (es : kv vhist) : res (list pwrite) :=
+    do v <- vscript (next_height s) es;
     Ok (PFlush 3 :: bputs 0 (b_cache (st_hash s)) ++ bputs 1 (b_cache (st_blk s))
                  ++ bputs 2 (b_cache (st_raw s)) ++ v).
+
+  (* [es]: the cache entries in the order the HashMaps iterate (any permutation of the model's
+     cache list; the theorems hold for every one of them) *)
+  Definition commit_script (s : store) : res (list pwrite) := commit_script_ord s (t_cache (st_t s)).
 
   (* ---------- reorg(n) ----------
      guard on max_block_number; block_number_to_hash.commit() FIRST (F18: the recorded height
@@ -114,19 +118,25 @@ Section Crash.
      persisted or cached history back, commit(n), clear; then trim block_number_to_block,
      block_number_to_raw_block and LAST block_number_to_hash; then commit_changes (which finds the
      versioned caches empty and re-puts the surviving cached block rows). *)
-  Definition reorg_script (s : store) (n : N) : res (list pwrite) :=
+  Definition reorg_script_ord (s : store) (n : N) (es1 : kv vhist) : res (list pwrite) :=
     let maxb := match st_max s with Some m => m | None => 0 end in
     if W + n <? maxb then Err
     else
-      let t := st_t s in
-      do t1 <- reorg_keys t n (map fst (t_cdb t) ++ map fst (t_cache t));
-      do v <- vscript n (t_cache t1);
+      do v <- vscript n es1;
       let hash1 := b_commit (st_hash s) in
       Ok (bputs 0 (b_cache (st_hash s))
           ++ v
           ++ bdels 1 (st_blk s) n ++ bdels 2 (st_raw s) n ++ bdels 0 hash1 n
           ++ PFlush 3 :: bputs 0 (b_cache (b_reorg hash1 n)) ++ bputs 1 (b_cache (b_reorg (st_blk s) n))
                       ++ bputs 2 (b_cache (b_reorg (st_raw s) n))).
+
+  (* the rolled-back histories (the cache after [reorg_keys]) *)
+  Definition reorg_cache (s : store) (n : N) : res (kv vhist) :=
+    let t := st_t s in
+    do t1 <- reorg_keys t n (map fst (t_cdb t) ++ map fst (t_cache t)); Ok (t_cache t1).
+
+  Definition reorg_script (s : store) (n : N) : res (list pwrite) :=
+    do es1 <- reorg_cache s n; reorg_script_ord s n es1.
 
   (* ---------- the engine's reorg: its guard, then the store's reorg (engine.rs) ---------- *)
   Definition engine_reorg (s : store) (n : N) : res store :=
